@@ -62,6 +62,8 @@ def shards(tier):
             else:
                 for p in itertools.product(range(len(ROWS)), repeat=t - 2):
                     out.append({'T': t, 'lm': lm, 'prefix': list(p)})
+    for lm in LMS:
+        out.append({'factory': lm})
     return out
 
 
@@ -69,6 +71,10 @@ def run_shard(shard, ctx, tier):
     from mc.core import guarded_check
     import sys
     mod = sys.modules[__name__]
+    if 'factory' in shard:
+        for si, bi, ki in itertools.product(range(len(SCALES)), range(len(BONUS)), range(len(KS))):
+            guarded_check(mod, {'factory': shard['factory'], 'cfg': [si, bi, ki]}, ctx)
+        return
     T, prefix = shard['T'], shard['prefix']
     for rest in itertools.product(range(len(ROWS)), repeat=T - len(prefix)):
         guarded_check(mod, {'rows': prefix + list(rest), 'lm': shard['lm']}, ctx)
@@ -96,8 +102,52 @@ def seq_score(w, h0, transcript, bonus, eos, memo):
     return s, h
 
 
+def check_factory(case, ctx):
+    """the decoder as users get it: decoder_factory on a [DECODER] configuration section (LM_SCALE, INSERTION_BONUS, BEAM_SIZE, LM) must
+    behave like the decoder constructed directly with these values - on every matrix of up to two rows"""
+    import configparser
+    import contextlib
+    import io
+    import unittest.mock
+    import torch
+    from pero_ocr.decoding import decoding_itf
+    from pero_ocr.decoding.decoders import CTCPrefixLogRawNumpyDecoder
+    from mc import stubs
+    lm = case['factory']
+    si, bi, ki = case['cfg']
+    scale, bonus, k = SCALES[si], BONUS[bi], KS[ki]
+    cfg = configparser.ConfigParser()
+    cfg['DECODER'] = {'TYPE': 'FAST-LOG-RAW', 'BEAM_SIZE': str(k), 'LM_SCALE': repr(scale), 'INSERTION_BONUS': repr(bonus), 'LM': 'toy.lm'}
+    with unittest.mock.patch.object(decoding_itf, 'construct_lm', lambda path, config_path='': stubs.ToyLM(lm, LETTERS[:-1])), \
+            contextlib.redirect_stderr(io.StringIO()):
+        dec = decoding_itf.decoder_factory(cfg['DECODER'], LETTERS[:-1], torch.device('cpu'))
+    ref = CTCPrefixLogRawNumpyDecoder(LETTERS, k, lm=wrapper(lm), lm_scale=scale, insertion_bonus=bonus)
+    ctx.state(('factory', lm, si, bi, ki))
+    ctx.tag('decoder-built-from-configuration')
+    K = f'{ID}/decoder_factory'
+    for T in (1, 2):
+        for rows in itertools.product(range(len(ROWS)), repeat=T):
+            with np.errstate(divide='ignore'):
+                lp = np.log(np.asarray([ROWS[i] for i in rows], dtype=float))
+            b1, b2 = dec(lp.copy()), ref(lp.copy())
+            ctx.executed(2)
+            h1 = sorted((h.transcript, round(float(h.vis_sc), 9), round(float(h.lm_sc), 9)) for h in b1)
+            h2 = sorted((h.transcript, round(float(h.vis_sc), 9), round(float(h.lm_sc), 9)) for h in b2)
+            t1 = sorted(float(x) for x in b1.total_scores()) if hasattr(b1, 'total_scores') else None
+            t2 = sorted(float(x) for x in b2.total_scores()) if hasattr(b2, 'total_scores') else None
+            if h1 != h2 or b1.best_hyp() != b2.best_hyp() or abs(b1.lm_weight - b2.lm_weight) > 0 or \
+                    (t1 is not None and np.abs(np.asarray(t1) - np.asarray(t2)).max() > 1e-9):
+                ctx.violation('result-maximises-fused-score', f'{K}/differs-from-directly-constructed-decoder',
+                              f'[DECODER] LM_SCALE={scale} INSERTION_BONUS={bonus} BEAM_SIZE={k} LM={lm}: matrix {[ROWS[i] for i in rows]} decodes to '
+                              f'{h1} / {b1.best_hyp()!r} (weight {b1.lm_weight}); the decoder constructed with these values gives {h2} / {b2.best_hyp()!r}')
+                return
+    ctx.outcome(('factory', scale, bonus, k))
+
+
 def check_case(case, ctx):
     from pero_ocr.decoding.decoders import CTCPrefixLogRawNumpyDecoder
+    if 'factory' in case:
+        return check_factory(case, ctx)
     rows, lm = case['rows'], case['lm']
     M = [ROWS[i] for i in rows]
     with np.errstate(divide='ignore'):
@@ -185,7 +235,21 @@ def check_case(case, ctx):
             if len(hyps) > 1 and max(hyps, key=lambda x: x[1] + x[2])[0] != top:
                 ctx.tag('scale-changes-the-winner')
         else:
+            # tie of the fused score: whichever of the tied hypotheses is handed on, it is one of the maximal ones and the returned LM state
+            # is the state of THAT hypothesis
             ctx.tag('skipped-near-tie-of-fused-score')
+            tied = [hyps[i][0] for i in order if tot[order[0]] - tot[i] <= EPS]
+            if best not in tied:
+                ctx.violation('result-maximises-fused-score', f'{K}/best_hyp/not-the-maximum',
+                              f'{desc}; best_hyp() = {best!r}, the maximal (tied) hypotheses are {tied}', sub)
+                continue
+            _, hwant = seq_score(w, h0, best, bonus, False, memo)
+            if hret._h.shape != hwant._h.shape or h_value(hret) != h_value(hwant):
+                ctx.violation('returned-state-is-state-of-result', f'{K}/returned-state-on-a-tie',
+                              f'{desc}; {tied} tie; best_hyp() hands on {best!r} but the returned LM state {h_value(hret)} is not its state '
+                              f'{h_value(hwant)}', sub)
+                continue
+            ctx.tag('tie-handled-consistently')
         # (3) scale 0 reproduces LM-free decoding
         if scale == 0.0:
             if k not in plain:
@@ -238,5 +302,5 @@ def describe(tier):
         'assumptions': ['LM vocabulary == decoder letters (the decoder indexes LM columns by letter index)',
                         'arg-max clauses are skipped when the two best fused scores are within 1e-9'],
         'min_nontrivial': 100,
-        'required_tags': ['decoder-reused-for-another-line', 'lm-changes-the-winner', 'scale-changes-the-winner', 'scale-zero-cases', 'beam-pruned'],
+        'required_tags': ['decoder-built-from-configuration', 'tie-handled-consistently', 'decoder-reused-for-another-line', 'lm-changes-the-winner', 'scale-changes-the-winner', 'scale-zero-cases', 'beam-pruned'],
     }
